@@ -30,6 +30,23 @@ def check(chk, repo):
     from ..rules_metrics import check_shift_wrapper
     check_shift_wrapper(rep, M)
     chk.floor("metrics that need the zero-avoiding shift", nd, 30)
+    # identifier and function stay paired for the life of the object: nothing but OPF.__init__ writes either
+    # of them, and load installs the saved object's state as a whole (same rule as C19)
+    from ..core import Check
+    from ..ir import Walker
+    from .c19 import check_load
+    for fi in repo.all_functions():
+        if fi.cls is None or fi.qual in ("OPF.__init__", "OPF.distance", "OPF.distance_fn"):
+            continue
+        w = Walker(repo, fi, self_class=fi.cls, inline=lambda f: False)
+        for e in w.events:
+            if e.kind == "store" and e.target[0] == "attr" and e.target[2] in ("distance", "_distance", "distance_fn", "_distance_fn"):
+                rep.ev("REG-paired", e, False, "the metric identifier / function of a model is changed outside OPF.__init__: "
+                       "`distance` and `distance_fn` can then disagree")
+    tmp = Check("C06")
+    check_load(Rep(tmp, repo), repo)
+    for o in tmp.obligations:
+        chk.ob("REG-load:" + o.rule, o.function, o.construct, o.ok, o.detail, o.file, o.line)
     chk.extra["programs"] = n
     chk.extra["disagreements_checked"] = sum(1 for o in chk.obligations if not o.ok)
     chk.extra["checker_cmd"] = "./run C06 --tier quick"
